@@ -569,9 +569,128 @@ def gen_startup():
     return out
 
 
+LOCK_RE = re.compile(r"([A-Za-z_][\w\.]*(?:\(\))?)\s*\.\s*(write|read|lock|read_owned|write_owned)\s*\(\s*\)\s*\.\s*await")
+EXT_RE = re.compile(r"(?:HttpRequest|HttpResponse|SocksRequest|SocksResponse)\s*::\s*read_from\s*\(|\.\s*accept\s*\([^)]*\)\s*\.\s*await|TcpStream\s*::\s*connect\s*\(|\brx\s*\.\s*recv\s*\(\s*\)\s*\.\s*await|\bcopy_bidi\s*\(|connector\s*\.\s*connect\s*\(|time\s*::\s*sleep\s*\(")
+
+
+def lock_rank(receiver):
+    """0 = history list, 1 = registry of live contexts, 3 = rule list, 2 = a context (any other async lock)"""
+    if "terminated" in receiver:
+        return 0
+    if "alive" in receiver:
+        return 1
+    if "rules" in receiver:
+        return 3
+    return 2
+
+
+def lock_program(body):
+    """the sequence of lock events of one function body, in source order:
+    ("acq", rank) / ("rel", rank) / ("ext",) .  A guard bound by `let` lives until drop(name) or the end of the
+    block that declares it; any other lock expression is a temporary that lives until the end of its statement."""
+    events = []           # (position, order, kind, rank)
+    n = len(body)
+    # brace depth at every position
+    depth, d = [0] * (n + 1), 0
+    for i, ch in enumerate(body):
+        if ch == "{":
+            d += 1
+        elif ch == "}":
+            d -= 1
+        depth[i + 1] = d
+    def block_end(pos):
+        d0 = depth[pos]
+        for j in range(pos, n):
+            if depth[j + 1] < d0:
+                return j
+        return n
+    def stmt_end(pos):
+        # next ';' at the brace depth of the statement start and outside parentheses opened after pos
+        d0, par = depth[pos], 0
+        for j in range(pos, n):
+            ch = body[j]
+            if ch in "([":
+                par += 1
+            elif ch in ")]":
+                par -= 1
+            elif ch == ";" and par <= 0 and depth[j] <= d0:
+                return j
+            if depth[j + 1] < d0 and par <= 0:
+                return j
+        return n
+    def stmt_start(pos):
+        d0 = depth[pos]
+        for j in range(pos - 1, -1, -1):
+            ch = body[j]
+            if (ch == ";" and depth[j] == d0) or (ch in "{}" and depth[j + 1] == d0):
+                return j + 1
+        return 0
+    for m in LOCK_RE.finditer(body):
+        rank = lock_rank(m.group(1))
+        st = stmt_start(m.start())
+        head = body[st:m.start()]
+        after = body[m.end():m.end() + 3].strip()
+        named = re.match(r"\s*let\s+(?:mut\s+)?(\w+)\s*(?::[^=]*)?=\s*(?:&\s*)?$", head)
+        events.append((m.start(), 0, "acq", rank))
+        if named and (after.startswith(";") or after.startswith("?")):
+            name = named.group(1)
+            dm = re.search(r"\bdrop\s*\(\s*%s\s*\)" % re.escape(name), body[m.end():])
+            end = m.end() + dm.start() if dm else block_end(m.end())
+            events.append((end, -1, "rel", rank))
+        else:
+            events.append((stmt_end(m.end()), -1, "rel", rank))
+    for m in re.finditer(r"\.\s*rules\s*\(\s*\)\s*\.\s*await", body):
+        # GlobalState::rules() returns the read guard of the rule list; used as a temporary
+        events.append((m.start(), 0, "acq", 3))
+        events.append((stmt_end(m.end()), -1, "rel", 3))
+    for m in EXT_RE.finditer(body):
+        events.append((m.start(), 1, "ext", -1))
+    events.sort()
+    return [(k, r) for _, _, k, r in events]
+
+
+def gen_locks():
+    """lock programs of the functions that touch the context registry or a context while a client may be waited
+    for (C14): src/common/h11c.rs, src/listeners/socks.rs, src/metrics.rs, src/context.rs, src/main.rs, src/copy.rs"""
+    def src(path):
+        return strip_rust(open(os.path.join(REPO, path)).read())
+    progs = []
+    h11c = src("src/common/h11c.rs")
+    progs.append(("h11c_handshake", lock_program(fn_body(h11c, "h11c_handshake"))))
+    progs.append(("h11c_connect", lock_program(fn_body(h11c, "h11c_connect"))))
+    socks = src("src/listeners/socks.rs")
+    progs.append(("socks_handshake", lock_program(fn_body(socks, "handshake"))))
+    metrics = src("src/metrics.rs")
+    for name in ("get_alive", "get_history", "get_rules", "post_rules"):
+        m = re.search(r"handler!\s*\(\s*%s\b" % name, metrics)
+        if m:
+            progs.append((name, lock_program(block_after(metrics[m.start():], r"->\s*[^{]*\{"))))
+    ctx = src("src/context.rs")
+    for name in ("create_context", "gc_thread"):
+        progs.append((name, lock_program(fn_body(ctx, name))))
+    ops = block_after(ctx, r"impl\s+ContextRefOps\s+for\s+ContextRef\s*\{")
+    for name in ("enqueue", "on_connect", "on_error", "on_finish"):
+        progs.append((name, lock_program(fn_body(ops, name))))
+    mainrs = src("src/main.rs")
+    progs.append(("process_request", lock_program(fn_body(mainrs, "process_request"))))
+    progs.append(("set_rules", lock_program(fn_body(mainrs, "set_rules"))))
+    copy = src("src/copy.rs")
+    progs.append(("copy_bidi", lock_program(fn_body(copy, "copy_bidi"))))
+    def show(ev):
+        k, r = ev
+        return "Acq %d" % r if k == "acq" else "Rel %d" % r if k == "rel" else "Ext"
+    out = "(* GENERATED by gen/translate.py: lock events in source order of the functions that lock the registry, the\n   history list, the rule list or a context.  Ranks: 0 history, 1 registry, 2 a context, 3 rule list.  Do not edit. *)\n"
+    out += "From Coq Require Import List String.\nImport ListNotations.\nLocal Open Scope string_scope.\n"
+    out += "Inductive step := Acq (l : nat) | Rel (l : nat) | Ext.\n"
+    out += "Definition programs : list (string * list step) := [\n"
+    out += ";\n".join('  ("%s", [%s])' % (n, "; ".join(show(e) for e in evs)) for n, evs in progs)
+    out += "\n].\n"
+    return out
+
+
 def main(which=None):
     changed = []
-    gens = {"Gen_panics.v": lambda: gen_panics()[0], "Gen_profile.v": gen_profile, "Gen_ladder.v": gen_ladder, "Gen_reload.v": gen_reload, "Gen_lb.v": gen_lb, "Gen_callbacks.v": gen_callbacks, "Gen_relay.v": gen_relay, "Gen_startup.v": gen_startup}
+    gens = {"Gen_panics.v": lambda: gen_panics()[0], "Gen_profile.v": gen_profile, "Gen_ladder.v": gen_ladder, "Gen_reload.v": gen_reload, "Gen_lb.v": gen_lb, "Gen_callbacks.v": gen_callbacks, "Gen_relay.v": gen_relay, "Gen_startup.v": gen_startup, "Gen_locks.v": gen_locks}
     for name, fn in gens.items():
         if which and name not in which:
             continue
